@@ -1,6 +1,6 @@
 SPECIFICATION Spec
 CONSTANTS
-  MaxEvents = 7
+  MaxEvents = 8
   MaxReq = 2
   SubIds = {1}
   RegIds = {1}
